@@ -498,8 +498,8 @@ func run(c *vf.Ctx) {
 			})
 		}
 	}
-	stress(c.Pick(1500, 80000), c.Pick(125, 200), false)
-	stress(c.Pick(400, 12000), c.Pick(50, 100), true)
+	stress(c.Pick(1500, 50000), c.Pick(125, 200), false)
+	stress(c.Pick(400, 8000), c.Pick(50, 100), true)
 	wg.Wait()
 
 	// ---- confirmation of hang-type gated verdicts by the Go runtime's dead-lock detector
@@ -561,7 +561,7 @@ func run(c *vf.Ctx) {
 	}
 	wg.Wait()
 
-	c.Require("evaluations", c.Pick(2000, 100000))
+	c.Require("evaluations", c.Pick(2000, 60000))
 	c.Require("gated_windows_entered", c.Pick(250, 3000))
 	c.Require("schedules:options", 48)
 	c.Require("schedules_with_panic_on_submit_option", 24)
@@ -585,8 +585,8 @@ func run(c *vf.Ctx) {
 	c.Require("group_wait_parked_observations", 500)
 	c.Require("group_observer_unsubscribes", c.Pick(1500, 30000))
 	c.Require("group_scenarios_concurrent_creation", c.Pick(500, 5000))
-	c.Require("stress_runs_submit_overlapping_shutdown", c.Pick(300, 15000))
-	c.Require("stress_runs_race_build", c.Pick(300, 9000))
+	c.Require("stress_runs_submit_overlapping_shutdown", c.Pick(300, 9000))
+	c.Require("stress_runs_race_build", c.Pick(300, 6000))
 	c.Assume("a consistent runtime.Stack(all) snapshot in which every goroutine is parked on a sync primitive or channel (twice in a row, timer-free scenario) means no goroutine can ever run again")
 	c.Assume("the verif yield points are no-ops apart from blocking/yielding the calling goroutine")
 }
